@@ -547,8 +547,8 @@ func ctxPassesThrough(v ssa.Value, pred func(*ssa.Call) bool) bool {
 		}
 		seen[v] = true
 		for _, o := range core.Origins(v) {
-			if fv, ok := o.(*ssa.FreeVar); ok {
-				r := core.ResolveFree(fv)
+			if isBoundValue(o) {
+				r := core.ResolveFree(o)
 				if r == o || !rec(r) {
 					return false
 				}
@@ -605,8 +605,8 @@ func ctxPassesThroughSome(v ssa.Value, pred func(*ssa.Call) bool) bool {
 		}
 		seen[v] = true
 		for _, o := range core.Origins(v) {
-			if fv, ok := o.(*ssa.FreeVar); ok {
-				if r := core.ResolveFree(fv); r != o && rec(r) {
+			if isBoundValue(o) {
+				if r := core.ResolveFree(o); r != o && rec(r) {
 					return true
 				}
 				continue
@@ -625,4 +625,17 @@ func ctxPassesThroughSome(v ssa.Value, pred func(*ssa.Call) bool) bool {
 		return false
 	}
 	return rec(v)
+}
+
+// isBoundValue: a free variable of a function literal, or a parameter of a
+// "virtual closure" (core.InlineSite): core.ResolveFree maps it to the value it
+// is bound to in the enclosing function.
+func isBoundValue(v ssa.Value) bool {
+	switch x := v.(type) {
+	case *ssa.FreeVar:
+		return true
+	case *ssa.Parameter:
+		return core.InlineSite[x.Parent()] != nil
+	}
+	return false
 }
